@@ -44,7 +44,8 @@ TRUSTED = ["harness/oracle_random.py: random.Random._randbelow patched so that r
            "python csv module (reader) as the reference decoder of the generated CSV text"]
 ASSUMPTIONS = ["csv.DictReader / SQLAlchemy+SQLite deliver the stored records in storage order with every cell intact "
                "(library code; sampled by every case, not proved)",
-               "random.shuffle is Fisher-Yates over Random._randbelow (CPython 3.12 source), draws within [0,i]",
+               "a shuffled pass (random.shuffle / SQLite ORDER BY random()) is some permutation of the records; the model "
+               "represents it as Fisher-Yates over an arbitrary oracle stream and the theorems hold for every stream",
                "the dataset file does not change while a recipe runs",
                "call-site identifiers (id() of live StructuredValue objects) are distinct"]
 EXHAUSTIVE = {"quick": False, "thorough": True}
@@ -410,7 +411,7 @@ def exhaustive_cases(rng):
 
 def generate(rng, tier):
     cases = boundary_cases(rng)
-    k = 1 if tier == "quick" else 10
+    k = 3 if tier == "quick" else 30
     for _ in range(260 * k):
         cases.append(gen_consumer_case(rng))
     for _ in range(130 * k):
